@@ -303,6 +303,24 @@ def _l2(spec):
     got_z = np.asarray(bz.supercurrent) + np.asarray(bz.normal_current)
     if float(np.max(np.abs(got_z - ref_z)) / (np.max(np.abs(ref_z)) + 1e-300)) > 1e-7:
         viol("solution_field_ne_direct_sum", {"vertical_line_scan_scalar_form": True})
+    # ONE evaluation point (the docstrings anticipate "something like a list [x, y, z]"): the first row of the many-point answer
+    C["single_point_checks"] = C.get("single_point_checks", 0) + 2
+    def _induced_A(X):
+        # (the applied part of a uniform field is re-centred on the evaluation points - a gauge choice - so it is not comparable
+        # between a single point and a set of points; the parts generated by the currents are)
+        pr = sol.vector_potential_at_position(X, with_units=False, return_sum=False)
+        return np.asarray(pr["supercurrent_density"]) + np.asarray(pr["normal_current_density"])
+
+    for nm_, fn_ in (("vector_potential_at_position", _induced_A),
+                     ("field_at_position", lambda X: sol.field_at_position(X, vector=True, with_units=False))):
+        many = np.asarray(fn_(P[:3]))
+        for form, X1 in (("array_1x3", P[:1]), ("list_xyz", P[0].tolist())):
+            try:
+                one = np.asarray(fn_(X1))
+                if one.reshape(-1).shape != many[0].reshape(-1).shape or np.max(np.abs(one.reshape(-1) - many[0].reshape(-1))) > 1e-12 * (np.max(np.abs(many[0])) + 1e-300):
+                    viol("single_point_differs_from_first_of_many", {"function": nm_, "form": form})
+            except Exception as exc:  # noqa: BLE001
+                viol("single_evaluation_point_raises", {"function": nm_, "form": form, "error": repr(exc)[:160]})
     # evaluation points given as an integer-typed array (e.g. np.array([[0, 0, 2]])): same result as the float-typed array
     ext_i = max(2.0, float(np.ptp(pts[:, 0])))
     Pi = np.stack([rng.integers(-int(ext_i), int(ext_i) + 1, 6), rng.integers(-int(ext_i), int(ext_i) + 1, 6), int(np.ceil(abs(dev.layer.z0))) + rng.integers(1, 4, 6)], axis=1).astype(np.int64)
